@@ -41,7 +41,8 @@ def recheck(a):
             print(a.seed_id, meta["recheck_error"])
         else:
             checks = a.checks.split(",") if a.checks else sorted(set([meta["property"]] + [k.split("@")[0] for k in meta.get("checks", {})]))
-            meta["checks"] = {}
+            # results of checks that are not run again are kept (they were obtained with an earlier state of /verif)
+            meta["checks"] = {k: dict(v, stale=True) for k, v in meta.get("checks", {}).items() if k.split("@")[0] not in checks}
             for c in checks:
                 for seed in a.seeds.split(","):
                     t0 = time.time()
